@@ -33,21 +33,28 @@ type script struct {
 	parse    bool
 	typ      string // s | b | x
 	pdbrps   string // "db.rp,db.rp" or "-"
+	qdbrps   string // batch scripts: the db.rp their queries read (BatchNode.DBRPs), "-" otherwise
 }
+
+// batch scripts: one query, every hour (never issued during a case), then the batch gate
+const batchFmt = "batch\n    |query('SELECT v FROM \"%s\".\"%s\".\"m\"')\n        .period(1s)\n        .every(1h)\n    @bgate()\n"
 
 const gateTail = "\n    |from()\n        .measurement('%s')\n    @gate()\n"
 
 var scripts = []script{
-	{"s0", "stream" + fmt.Sprintf(gateTail, "m0"), true, "s", "-"},
-	{"s1", "stream" + fmt.Sprintf(gateTail, "m1"), true, "s", "-"},
-	{"sd", "dbrp \"pdb\".\"prp\"\n\nstream" + fmt.Sprintf(gateTail, "m2"), true, "s", "pdb.prp"},
-	{"se", "dbrp \"qdb\".\"qrp\"\n\nstream" + fmt.Sprintf(gateTail, "m3"), true, "s", "qdb.qrp"},
-	{"sx", "stream|from(", false, "x", "-"},                     // does not parse
-	{"si", "stream\n    |from()\n    .nosuch()\n", true, "s", "-"}, // parses, typed, does not build
-	{"sn", "var x = 1\n", true, "x", "-"},                        // parses, no stream/batch
-	{"t0", "var m = 'm0'\n\nstream\n    |from()\n        .measurement(m)\n    @gate()\n", true, "s", "-"},
-	{"t1", "var m string\n\nstream\n    |from()\n        .measurement(m)\n    @gate()\n", true, "s", "-"}, // needs var m
-	{"td", "dbrp \"pdb\".\"prp\"\n\nvar m = 'm4'\n\nstream\n    |from()\n        .measurement(m)\n    @gate()\n", true, "s", "pdb.prp"},
+	{"s0", "stream" + fmt.Sprintf(gateTail, "m0"), true, "s", "-", "-"},
+	{"s1", "stream" + fmt.Sprintf(gateTail, "m1"), true, "s", "-", "-"},
+	{"sd", "dbrp \"pdb\".\"prp\"\n\nstream" + fmt.Sprintf(gateTail, "m2"), true, "s", "pdb.prp", "-"},
+	{"se", "dbrp \"qdb\".\"qrp\"\n\nstream" + fmt.Sprintf(gateTail, "m3"), true, "s", "qdb.qrp", "-"},
+	{"sx", "stream|from(", false, "x", "-", "-"},                     // does not parse
+	{"si", "stream\n    |from()\n    .nosuch()\n", true, "s", "-", "-"}, // parses, typed, does not build
+	{"sn", "var x = 1\n", true, "x", "-", "-"},                        // parses, no stream/batch
+	{"t0", "var m = 'm0'\n\nstream\n    |from()\n        .measurement(m)\n    @gate()\n", true, "s", "-", "-"},
+	{"t1", "var m string\n\nstream\n    |from()\n        .measurement(m)\n    @gate()\n", true, "s", "-", "-"}, // needs var m
+	{"td", "dbrp \"pdb\".\"prp\"\n\nvar m = 'm4'\n\nstream\n    |from()\n        .measurement(m)\n    @gate()\n", true, "s", "pdb.prp", "-"},
+	// batch tasks: StartBatching succeeds iff the task's dbrps contain the db.rp the query reads
+	{"b0", fmt.Sprintf(batchFmt, "db", "rp"), true, "b", "-", "db.rp"},
+	{"b1", fmt.Sprintf(batchFmt, "odb", "orp"), true, "b", "-", "odb.orp"},
 }
 
 var varsPool = []struct {
@@ -285,6 +292,48 @@ func (w *world) executing(ids []string) string {
 
 var taskIDs = []string{"a", "b", "c", "d"}
 
+// node names of the pool's pipelines (stream|from|@gate and batch|query|@bgate): a stored snapshot is used by
+// ExecutingTask.start only when it has an entry for every node of the pipeline.
+var snapshotNodes = []string{"stream0", "from1", "gate2", "batch0", "query1", "bgate2"}
+
+// snapshots: for every task ID that has a stored snapshot (Service.HasSnapshot / LoadSnapshot — what
+// TaskMaster.StartTask asks), its payload and, when the task executes, the payload its gate node was restored with at
+// its last start ("-" = it was started without a snapshot). id:payload:restored
+func (w *world) snapshots(ids []string) string {
+	var out []string
+	for _, id := range ids {
+		pay := "-"
+		if w.ts.HasSnapshot(id) {
+			pay = "undecodable"
+			if s, err := w.ts.LoadSnapshot(id); err == nil {
+				pay = "inconsistent"
+				same := true
+				for _, n := range snapshotNodes {
+					if string(s.NodeSnapshots[n]) != string(s.NodeSnapshots[snapshotNodes[0]]) {
+						same = false
+					}
+				}
+				if same && len(s.NodeSnapshots) == len(snapshotNodes) {
+					pay = string(s.NodeSnapshots[snapshotNodes[0]])
+				}
+			}
+		}
+		rest := "-"
+		if w.tm.IsExecuting(id) {
+			if r := w.gate.restoredOf(id); r != "" {
+				rest = r
+			}
+		}
+		if pay != "-" || rest != "-" {
+			out = append(out, id+":"+pay+":"+rest)
+		}
+	}
+	if len(out) == 0 {
+		return "snaps=-"
+	}
+	return "snaps=" + strings.Join(out, ",")
+}
+
 func statusOf(tok string) client.TaskStatus {
 	switch tok {
 	case "e":
@@ -317,7 +366,11 @@ func (w *world) oracle(s script) string {
 	if _, err := ast.Parse(s.text); (err == nil) != s.parse {
 		p = "declared-parse-attribute-wrong"
 	}
-	if _, err := w.tm.NewTemplate("probe", s.text, kapacitor.StreamTask); err == nil {
+	tt := kapacitor.StreamTask
+	if s.typ == "b" {
+		tt = kapacitor.BatchTask
+	}
+	if _, err := w.tm.NewTemplate("probe", s.text, tt); err == nil {
 		tv = "1"
 	}
 	v := ""
@@ -325,7 +378,7 @@ func (w *world) oracle(s script) string {
 		tvars, err := toTickVars(vp.v)
 		ok := err == nil
 		if ok {
-			_, err = w.tm.NewTask("probe", s.text, kapacitor.StreamTask, []kapacitor.DBRP{{Database: "x", RetentionPolicy: "y"}}, 0, tvars)
+			_, err = w.tm.NewTask("probe", s.text, tt, []kapacitor.DBRP{{Database: "x", RetentionPolicy: "y"}}, 0, tvars)
 			ok = err == nil
 		}
 		if ok {
@@ -334,7 +387,48 @@ func (w *world) oracle(s script) string {
 			v += "0"
 		}
 	}
-	return fmt.Sprintf("p=%s t=%s d=%s tv=%s v=%s", p, s.typ, s.pdbrps, tv, v)
+	// cross-check the declared type / query dbrps of batch scripts with the real pipeline
+	q := s.qdbrps
+	if s.typ == "b" {
+		if got := w.batchDBRPs(s.text); got != s.qdbrps {
+			q = "declared-query-dbrps-wrong:" + got
+		}
+	}
+	return fmt.Sprintf("p=%s t=%s d=%s tv=%s v=%s q=%s", p, s.typ, s.pdbrps, tv, v, q)
+}
+
+// batchDBRPs: what ExecutingTask.checkDBRPs compares with the task's dbrps (BatchNode.DBRPs), from a real
+// ExecutingTask of the script.
+func (w *world) batchDBRPs(text string) string {
+	t, err := w.tm.NewTask("probe", text, kapacitor.BatchTask, []kapacitor.DBRP{{Database: "x", RetentionPolicy: "y"}}, 0, nil)
+	if err != nil {
+		return "unbuildable"
+	}
+	et, err := kapacitor.NewExecutingTask(w.tm, t)
+	if err != nil {
+		return "no-executing-task"
+	}
+	qs, err := et.BatchQueries(time.Unix(0, 0), time.Unix(1, 0))
+	_ = qs
+	// BatchQueries runs checkDBRPs first: probe the two candidate dbrps instead of reaching into the node
+	var out []string
+	for _, cand := range [][2]string{{"db", "rp"}, {"odb", "orp"}} {
+		t2, err := w.tm.NewTask("probe", text, kapacitor.BatchTask, []kapacitor.DBRP{{Database: cand[0], RetentionPolicy: cand[1]}}, 0, nil)
+		if err != nil {
+			return "unbuildable"
+		}
+		et2, err := kapacitor.NewExecutingTask(w.tm, t2)
+		if err != nil {
+			return "no-executing-task"
+		}
+		if _, err := et2.BatchQueries(time.Unix(0, 0), time.Unix(0, 0)); err == nil {
+			out = append(out, cand[0]+"."+cand[1])
+		}
+	}
+	if len(out) == 0 {
+		return "-"
+	}
+	return strings.Join(out, ",")
 }
 
 func toTickVars(cv client.Vars) (map[string]tick.Var, error) {
@@ -463,6 +557,18 @@ func execCase(ops []string) (out []string) {
 				w.st.reset(-1, "")
 				return w.kill(t[1])
 			})
+		case "snap": // snap <id> <payload>: TaskMaster's snapshotter saves a snapshot of task <id> (Service.SaveSnapshot)
+			guard(line, func() string {
+				w.st.reset(-1, "")
+				ns := map[string][]byte{}
+				for _, n := range snapshotNodes {
+					ns[n] = []byte(t[2])
+				}
+				if err := w.ts.SaveSnapshot(t[1], &kapacitor.TaskSnapshot{NodeSnapshots: ns}); err != nil {
+					return "error"
+				}
+				return "ok"
+			})
 		case "restart": // restart fail=
 			guard(line, func() string {
 				if err := w.restart(); err != nil {
@@ -472,7 +578,7 @@ func execCase(ops []string) (out []string) {
 			})
 		case "list":
 			guard(line, func() string {
-				return w.listTasks() + " " + w.listTemplates() + " " + w.executing(taskIDs)
+				return w.listTasks() + " " + w.listTemplates() + " " + w.executing(taskIDs) + " " + w.snapshots(taskIDs)
 			})
 		default:
 			out = append(out, line+" => unknown-op")
